@@ -200,6 +200,60 @@ def row_invariant(df, centre, sig='sig'):
             "{df}['{b}'][j] < {df}['{c}'][j] and {df}['{c}'][j] < len({sig}))").format(df=df, a=a, b=b, c=c, sig=sig)
 
 
+def _range_proof(centre):
+    """explicit steps for the two range clauses: a min/max ratio of positive finite values lies in (0, 1], so do the
+    (nan-ignoring) minima of such ratios, and clamping at 0 leaves them alone"""
+    def h(P):
+        import z3
+        from vf import xops
+        from vf.values import X, Z, XRS
+        E, env = P.E, P.env
+        df = env['df_shape_features']
+        res = env.get('__return__')
+        env2 = dict(E.entry_env)
+        env2['result'] = res
+        clauses = burst_feature_specs('df_shape_features', centre)
+        xa, xb = z3.Const('G_a', XRS), z3.Const('G_b', XRS)
+        zero, one = xops.to_x(Z(z3.RealVal(0), REAL)), xops.to_x(Z(z3.RealVal(1), REAL))
+        pos = lambda t: z3.And(xops.wf(t), xops.isfin(X(t)), xops.lt(zero, X(t)))
+        rng = lambda V: z3.And(xops.lt(zero, V), z3.Not(xops.lt(one, V)), xops.isfin(V), xops.wf(V.t))
+        P.forall('xr:ratio-range', [xa, xb], z3.And(pos(xa), pos(xb)), rng(xops.ratio(X(xa), X(xb))))
+        P.forall('xr:min-range', [xa, xb], z3.And(rng(X(xa)), rng(X(xb))),
+                 z3.And(rng(xops.np_min2(X(xa), X(xb))), rng(xops.nanmin2(X(xa), X(xb))), xops.same(xops.clamp0(X(xa)), X(xa))))
+        col = lambda c, x: xops.to_x(E.rd(df.cols[c], x))
+        F = E.st.ghost['facts']
+        inst_all = lambda name, xs: [P.inst_formula(f, x) if (z3.is_quantifier(f) and f.num_vars() == 1) else f
+                                      for f in (F.get(name) or []) for x in xs]
+        # period consistency
+        def by_pc(i):
+            p = lambda j: col('period', j)
+            last, nxt = xops.ratio(p(i), p(i - 1)), xops.ratio(p(i + 1), p(i))
+            return (inst_all('call:compute_period_consistency#1', [i]) + inst_all('requires', [i - 1, i, i + 1]) +
+                    [P.inst('xr:ratio-range', p(i).t, p(i - 1).t), P.inst('xr:ratio-range', p(i + 1).t, p(i).t),
+                     P.inst('xr:min-range', nxt.t, last.t)])
+        P.prove_clause('range:period_consistency', clauses[-2], env2, by_pc)
+        # amplitude consistency
+        pk = centre == 'peak'
+
+        def by_ac(i):
+            r, d = (lambda j: col('volt_rise', j)), (lambda j: col('volt_decay', j))
+            cur = xops.ratio(r(i), d(i))
+            if pk:
+                last, nxt = xops.ratio(r(i), d(i - 1)), xops.ratio(r(i + 1), d(i))
+                pairs = [(r(i), d(i)), (r(i), d(i - 1)), (r(i + 1), d(i))]
+            else:
+                last, nxt = xops.ratio(r(i - 1), d(i)), xops.ratio(r(i), d(i + 1))
+                pairs = [(r(i), d(i)), (r(i - 1), d(i)), (r(i), d(i + 1))]
+            inner = xops.nanmin2(cur, nxt)
+            both = xops.nanmin2(inner, last)
+            wf = [xops.wf(v.t) for j in (i - 1, i, i + 1) for v in (r(j), d(j))]
+            return (inst_all('call:compute_amp_consistency#1', [i]) + wf +
+                    [P.inst('xr:ratio-range', a_.t, b_.t) for a_, b_ in pairs] +
+                    [P.inst('xr:min-range', cur.t, nxt.t), P.inst('xr:min-range', inner.t, last.t), P.inst('xr:min-range', both.t, both.t)])
+        P.prove_clause('range:amp_consistency', clauses[-1], env2, by_ac)
+    return h
+
+
 def burst_feature_specs(df, centre, res='result'):
     """C05 restated over the columns of table `df` (peak/trough naming by centring)"""
     pk = 'True' if centre == 'peak' else 'False'
@@ -258,7 +312,8 @@ def _cbf_cases():
                           "forall(j, 0 <= j < len(df_shape_features), df_shape_features['period'][j] > 0)"],
                 ensures=["len(result) == len(df_shape_features)"] + burst_feature_specs('df_shape_features', centre),
                 # the range clause of amp_consistency needs nothing but the callee's own clauses about that column
-                ensures_using={9: ['call:compute_amp_consistency#1']}))
+                proof={('before_return',): _range_proof(centre)},
+                ensures_using={8: ['range:period_consistency'], 9: ['range:amp_consistency']}))
         # amp: every subset of the documented keys of burst_kwargs (presence bits are symbolic)
         amp = "(value(burst_kwargs, 'amp_threshes') if present(burst_kwargs, 'amp_threshes') else (1, 2))"
         mnc = ("(None if present(burst_kwargs, 'min_burst_duration') else "
